@@ -1,0 +1,42 @@
+/**
+ * Verification hooks. Compiled in only when QUILL_VERIF is defined; otherwise every macro below
+ * expands to nothing. With the guard on, QUILL_VERIF_YIELD(point) calls a function pointer that a
+ * test harness may install (null by default), so that a harness can run other threads' steps at
+ * well-defined points inside the backend worker's loop.
+ */
+
+#pragma once
+
+#if defined(QUILL_VERIF)
+  #include "quill/core/Attributes.h"
+
+QUILL_BEGIN_NAMESPACE
+
+namespace detail
+{
+using verif_yield_fn_t = void (*)(int);
+
+inline verif_yield_fn_t& verif_yield_fn() noexcept
+{
+  static verif_yield_fn_t fn = nullptr;
+  return fn;
+}
+
+inline void verif_yield(int point) noexcept
+{
+  if (verif_yield_fn_t fn = verif_yield_fn())
+  {
+    fn(point);
+  }
+}
+} // namespace detail
+
+QUILL_END_NAMESPACE
+
+  #define QUILL_VERIF_YIELD(point) ::quill::detail::verif_yield(point)
+#else
+  #define QUILL_VERIF_YIELD(point)                                                                 \
+    do                                                                                             \
+    {                                                                                              \
+    } while (0)
+#endif
